@@ -11,6 +11,9 @@
  *             hand: it is handed to worker 0, who releases it.
  *        After the join the count must be EXACTLY L (+1 for join); the creator then releases
  *        the rest.  A userdata delete callback counts destructions per node.
+ *   cont <N> <K> <op> <C> <seed>   the count of a node changed by CONTAINER paths (destroying /
+ *        emptying / overwriting a container that holds it) in one thread while N workers
+ *        get/put it directly; see case_cont.
  *   seedx <N> <R> <keyhex> <draws>   as `seed`, with the first results of json_c_get_random_seed()
  *        scripted (comma list of ints, "xK" = K more copies of the previous value), e.g. the
  *        sentinel -1 on the first draws; afterwards the real source.
@@ -222,6 +225,93 @@ static void case_rc(char *args)
 	       __atomic_load_n(&put1_total, __ATOMIC_SEQ_CST));
 }
 
+/* ------------------------------------------------------------------ cont: counts changed by container paths */
+/* The member node X is referenced directly by N workers (get/put hammering, as in `rc`) and,
+ * again and again, from inside a container that only thread A (this thread) owns and touches:
+ * A acquires a reference, hands it to the container, and the container releases it on one of
+ * the library's own paths:
+ *   putc_arr / putc_obj  json_object_put(container)            (container destroyed)
+ *   adel                 json_object_array_del_idx
+ *   aput                 json_object_array_put_idx replacing the element
+ *   odel                 json_object_object_del
+ *   oadd                 json_object_object_add replacing the member
+ *   mix                  one of the above per iteration
+ * A keeps one reference of its own throughout; after the join the count must be exactly 1,
+ * nothing destroyed; A's release then destroys X exactly once. */
+static const char *CONT_OPS[] = {"putc_arr", "putc_obj", "adel", "aput", "odel", "oadd"};
+
+static void case_cont(char *args)
+{
+	char op[16];
+	int C, it, which = -1, early = 0;
+	long lost = 0, i;
+	unsigned long x;
+	struct json_object *X, *arr, *obj;
+	pthread_t th[MAXT];
+	if (sscanf(args, "%d %d %15s %d %lu", &rc_N, &rc_K, op, &C, &rc_seed) != 5 || rc_N < 1 || rc_N > MAXT) { printf("BADLINE"); return; }
+	for (it = 0; it < 6; it++) if (strcmp(op, CONT_OPS[it]) == 0) which = it;
+	if (which < 0 && strcmp(op, "mix") != 0) { printf("BADLINE"); return; }
+	rc_M = 1; rc_hand = 0;
+	X = json_object_new_object();
+	json_object_object_add(X, "k", json_object_new_int(7));
+	json_object_set_userdata(X, &destroyed[0], count_delete);
+	nodes[0] = X;
+	for (i = 0; i < rc_N; i++) json_object_get(X);          /* one reference per worker */
+	arr = json_object_new_array();
+	json_object_array_add(arr, json_object_new_int(0));
+	obj = json_object_new_object();
+	json_object_object_add(obj, "n", json_object_new_int(0));
+	x = (rc_seed * 48271UL + 11UL) & 0x7fffffffUL;
+	pthread_barrier_init(&bar, NULL, (unsigned)rc_N + 1);
+	for (i = 0; i < rc_N; i++) pthread_create(&th[i], NULL, rc_worker, (void *)i);
+	pthread_barrier_wait(&bar);
+	for (it = 0; it < C; it++) {
+		int w = which;
+		if (w < 0) { x = lcg(x); w = (int)((x >> 9) % 6); }
+		switch (w) {
+		case 0: {
+			struct json_object *a = json_object_new_array();
+			json_object_array_add(a, json_object_new_int(it));
+			json_object_array_add(a, json_object_get(X));
+			json_object_put(a);
+			break; }
+		case 1: {
+			struct json_object *o = json_object_new_object();
+			json_object_object_add(o, "m", json_object_get(X));
+			json_object_object_add(o, "n", json_object_new_int(it));
+			json_object_put(o);
+			break; }
+		case 2:
+			json_object_array_add(arr, json_object_get(X));
+			json_object_array_del_idx(arr, json_object_array_length(arr) - 1, 1);
+			break;
+		case 3:
+			json_object_array_put_idx(arr, 0, json_object_get(X));
+			json_object_array_put_idx(arr, 0, json_object_new_int(it));
+			break;
+		case 4:
+			json_object_object_add(obj, "m", json_object_get(X));
+			json_object_object_del(obj, "m");
+			break;
+		default:
+			json_object_object_add(obj, "m", json_object_get(X));
+			json_object_object_add(obj, "m", json_object_new_int(it));
+			break;
+		}
+	}
+	for (i = 0; i < rc_N; i++) pthread_join(th[i], NULL);
+	json_object_put(arr);
+	json_object_put(obj);
+	if (__atomic_load_n(&destroyed[0], __ATOMIC_SEQ_CST) > 0) {
+		early++;                                     /* destroyed while A still owns a reference */
+	} else {
+		lost = labs((long)X->_ref_count - 1);
+		do_put(0);
+	}
+	printf("cont destroyed=%d early=%d lost=%ld put1=%d", __atomic_load_n(&destroyed[0], __ATOMIC_SEQ_CST), early, lost,
+	       __atomic_load_n(&put1_total, __ATOMIC_SEQ_CST));
+}
+
 /* ------------------------------------------------------------------ seed */
 static char *seed_key;
 static int seed_R;
@@ -401,6 +491,7 @@ void run_case(char *rest)
 		if (errf) dup2(fileno(errf), 2);
 		alarm(300);
 		if (strncmp(rest, "rc ", 3) == 0) case_rc(rest + 3);
+		else if (strncmp(rest, "cont ", 5) == 0) case_cont(rest + 5);
 		else if (strncmp(rest, "seed ", 5) == 0) case_seed(rest + 5);
 		else if (strncmp(rest, "seedx ", 6) == 0) case_seed(rest + 6);
 		else if (strncmp(rest, "trees ", 6) == 0) case_trees(rest + 6);
